@@ -321,7 +321,7 @@ fn answer(rt: &tokio::runtime::Runtime, line: &str) -> String {
     let mut outs: Vec<String> = vec![];
     let res = catch(|| {
         rt.block_on(async {
-            let col = match hk::VerifColumn::open(built.data.clone(), &built.index_bytes, ty.clone(), q.cw) {
+            let col = match hk::VerifColumn::open(built.data.clone(), &built.index_bytes, ty.clone(), q.cw, q.crc) {
                 Ok(c) => c,
                 Err(_) => { outs.push("err".into()); return; }
             };
